@@ -82,6 +82,7 @@ pub fn exec(spec: &Spec, r: &mut RunResult) {
         let mut rec = Recorder::new(true);
         let mut seen: Vec<Vec<usize>> = vec![vec![]; slots.len()];
         let mut poisoned = vec![false; slots.len()];
+        let mut limit_hit = vec![false; spec.slots.len()];
         for (oi, op) in spec.ops.iter().enumerate() {
             let g = match l.goals.get(op.goal).and_then(|g| g.as_ref()) {
                 Some(g) => g.clone(),
@@ -146,7 +147,20 @@ pub fn exec(spec: &Spec, r: &mut RunResult) {
             };
             let limit = |p: &std::collections::BTreeMap<&'static str, u64>| p.get("solve.needs_truncation").cloned().unwrap_or(0) > 0 || p.get("slg.table_floundered").cloned().unwrap_or(0) > 0;
             let fresh_limit = limit(&memo.get(&l, &cfg, op.goal, &op.kind, spec.budget).1.probes);
-            if norm(&out) != norm(&fresh) && (limit(&st.probes) || fresh_limit) {
+            // a limit hit leaves floundered tables / truncated answers behind: later operations on the same solver state
+            // (same slot, or a slot sharing its cache) see them without hitting the limit themselves
+            let tainted_before = limit_hit[op.slot];
+            if limit(&st.probes) {
+                limit_hit[op.slot] = true;
+                if let SlotCfg::Rec { shared: Some(gid), .. } = &cfg {
+                    for (si, c2) in spec.slots.iter().enumerate() {
+                        if matches!(c2, SlotCfg::Rec { shared: Some(g2), .. } if g2 == gid) {
+                            limit_hit[si] = true;
+                        }
+                    }
+                }
+            }
+            if norm(&out) != norm(&fresh) && (limit(&st.probes) || fresh_limit || tainted_before) {
                 // a size limit fired: where a growing type gets cut depends on the path taken (C13's and C02's carve-out)
                 r.bump("excluded.limit_reached_probe", 1);
                 continue;
